@@ -96,7 +96,22 @@ func (lc *libCheck) run(a *artefacts, tier string, seed uint64) int {
 		seenSig[v.Sig] = true
 		min, o := lc.minimise(a, v)
 		if o == nil {
-			die(2, "violation of %s (class %s) did not reproduce in a fresh process: simulator not deterministic? spec seed %d", lc.Prop, v.Class, v.Spec.Seed)
+			// not reproducible alone: does it need the calls made earlier in the same process (the worlds
+			// of its batch that ran before it)?  If the same violation comes back, twice, when that history is
+			// run again in a fresh process, it is a violation whose trigger is the history; the replay file
+			// names the history (batch base, range), and replay runs it again.
+			h := &libHistory{Kind: lc.Kind, Tier: tier, Base: v.Base, From: v.From, To: v.Index + 1, Seed: v.Spec.Seed, Class: v.Class}
+			if ok, _ := lc.replayHistory(a, h); !ok {
+				die(2, "violation of %s (class %s) did not reproduce in a fresh process, neither alone nor after the worlds that ran before it: simulator not deterministic? spec seed %d", lc.Prop, v.Class, v.Spec.Seed)
+			}
+			payload, _ := json.Marshal(h)
+			sig := v.Sig + "|after-earlier-calls-in-the-process"
+			msg := fmt.Sprintf("only after the %d world(s) that ran before it in the same process (the state they leave behind in the library): %s", v.Index-v.From, v.Msg)
+			rf := &replayFile{Property: lc.Prop, Kind: "libhist:" + lc.Kind, Class: v.Class, Sig: sig, Msg: msg, Seed: v.Spec.Seed, Payload: payload}
+			path := writeReplay(rf, nrep)
+			nrep++
+			rep.report(sig, msg, path)
+			continue
 		}
 		payload, _ := json.Marshal(min)
 		rf := &replayFile{Property: lc.Prop, Kind: "lib:" + lc.Kind, Class: o.Class, Sig: o.Sig, Msg: o.Msg, Seed: v.Spec.Seed, LogHash: o.LogHash, Payload: payload}
@@ -238,7 +253,44 @@ func (lc *libCheck) minimise(a *artefacts, v violation) (*simrt.Spec, *outcome) 
 	return &final, of
 }
 
+// libHistory: a violation that needs the worlds which ran before it in the same process
+type libHistory struct {
+	Kind  string `json:"kind"`
+	Tier  string `json:"tier"`
+	Base  uint64 `json:"base"`
+	From  uint64 `json:"from"`
+	To    uint64 `json:"to"`
+	Seed  uint64 `json:"seed"` // spec seed of the world that must fail
+	Class string `json:"class"`
+}
+
+func (lc *libCheck) replayHistory(a *artefacts, h *libHistory) (bool, string) {
+	for i := 0; i < 2; i++ {
+		r, err := runBatch(a, &batchReq{Kind: h.Kind, Tier: h.Tier, Base: h.Base, From: h.From, To: h.To, MaxViolations: 1 << 30}, 20*time.Minute)
+		if err != nil {
+			return false, err.Error()
+		}
+		found := false
+		for _, v := range append(r.Violations, r.Known...) {
+			if v.Spec != nil && v.Spec.Seed == h.Seed && v.Class == h.Class {
+				found = true
+			}
+		}
+		if !found {
+			return false, fmt.Sprintf("world %d did not end in class %q after its history", h.Seed, h.Class)
+		}
+	}
+	return true, ""
+}
+
 func (lc *libCheck) replay(a *artefacts, rf *replayFile) (bool, string) {
+	if strings.HasPrefix(rf.Kind, "libhist:") {
+		var h libHistory
+		if err := json.Unmarshal(rf.Payload, &h); err != nil {
+			return false, err.Error()
+		}
+		return lc.replayHistory(a, &h)
+	}
 	var sp simrt.Spec
 	if err := json.Unmarshal(rf.Payload, &sp); err != nil {
 		return false, err.Error()
